@@ -116,3 +116,46 @@ package actor
 
 //@ func (*relocationFailures).items(r)
 //@   ensures the-recorded-list: result == r.failures
+
+// the relocation of one departure, end to end: the job registered for the departed
+// node is released exactly once on every path (stopping system, peer lookup failed,
+// normal completion); every actor that no survivor can host by role is recorded
+// before the shares go out; and RelocationFailed is built at most once, from exactly
+// the split of the list the failure monitor returns after all shares are done.
+//@ ghost local rl_released int
+//@ ghost local rl_built int
+//@ ghost local rl_nrec int
+//@ ghost local rl_unp []*internalpb.Actor
+//@ ghost local rl_items []*internalpb.RelocationFailure
+//@ ghost local rl_have_items bool
+//@ ghost local rl_fa []string
+//@ ghost local rl_fg []string
+//@ ghost local rl_waited bool
+
+//@ func (*relocationWorker).relocate(w, ctx, peerState)
+//@   bounds off
+//@   ghost entry rl_released = 0
+//@   ghost entry rl_built = 0
+//@   ghost entry rl_nrec = 0
+//@   ghost entry rl_have_items = false
+//@   ghost entry rl_waited = false
+//@   at call 1 of invoke endRelocation ghost rl_released = rl_released + 1
+//@   at call 1 of (*relocationWorker).finish ghost rl_released = rl_released + 1
+//@   at call 2 of (*relocationWorker).finish ghost rl_released = rl_released + 1
+//@   at call 1 of allocateActors ghost rl_unp = result2
+//@   loop 1 invariant unplaceable-actors-recorded-so-far: rl_nrec == rangeindex + 1 && rl_released == 0 && rl_built == 0 && !rl_have_items && !rl_waited
+//@   at call 1 of (*relocationFailures).record assert records-it-as-an-actor: arg2 == false && arg3 != nil
+//@   at call 1 of (*relocationFailures).record ghost rl_nrec = rl_nrec + 1
+//@   at call 1 of enqueueRelocation assert every-unplaceable-actor-recorded-first: rl_nrec == len(rl_unp)
+//@   loop 2 invariant shares-go-out-before-the-list-is-read: rl_released == 0 && rl_built == 0 && !rl_have_items && !rl_waited
+//@   at call 1 of (*Group).Wait ghost rl_waited = true
+//@   at call 1 of (*relocationFailures).items assert reads-the-list-after-every-share-is-done: rl_waited
+//@   at call 1 of (*relocationFailures).items ghost rl_items = result
+//@   at call 1 of (*relocationFailures).items ghost rl_have_items = true
+//@   at call 1 of splitFailures assert splits-the-collected-list: rl_have_items && arg0 == rl_items
+//@   at call 1 of splitFailures ghost rl_fa = result0
+//@   at call 1 of splitFailures ghost rl_fg = result1
+//@   at call 1 of NewRelocationFailed assert reports-exactly-the-collected-failures-once: rl_built == 0 && arg2 == rl_fa && arg3 == rl_fg && len(rl_items) > 0
+//@   at call 1 of NewRelocationFailed ghost rl_built = rl_built + 1
+//@   ensures releases-the-job-exactly-once: rl_released == 1
+//@   ensures at-most-one-failure-event: rl_built <= 1
